@@ -71,7 +71,7 @@ def generate(ctx):
                 raw = ""  # the empty raw manifest: a manifest like any other, not "no manifest"
             elif r < 0.55:
                 raw = hx(bytes(rng.randrange(256) for _ in range(rng.randrange(0, 40))))
-        cases.append({"kind": kind, "sub": sub, "raw": raw, "flipseed": rng.randrange(2**32), "other": None})
+        cases.append({"kind": kind, "sub": sub, "raw": raw, "flipseed": rng.randrange(2**32), "other": None, "tz": rng.randrange(64)})
     # pair each case with another of the same kind, as a source of field values for evolve
     by_kind = {}
     for c in cases:
@@ -195,6 +195,11 @@ def check_cases(ctx, cases):
         ctx.count("kind=" + kind)
         ctx.count("raw=" + ("none" if case["raw"] is None else ("unneeded" if case["raw"] == "same" else "needed")))
         fm = formatter(kind)
+        # nothing here depends on where the process runs: objects are built in one local timezone and
+        # recomputed / checked in another
+        from common import local_timezone
+
+        ctx.count("local-tz=" + local_timezone(case.get("tz", 0)))
         base = build(kind, sub)
         attr_man = fm(base)
         raw = None
@@ -209,6 +214,9 @@ def check_cases(ctx, cases):
         want = hashlib.sha1(raw if raw is not None else attr_man).digest()
         if o.id != want:
             ctx.fail(case, "id is not the SHA-1 of the object's own manifest (raw manifest when given)", "id-not-hash-of-manifest")
+        local_timezone(case.get("tz", 0) + 1 + case.get("tz", 0) % 3)
+        if fm(base) != attr_man:
+            ctx.fail(case, "the manifest of an object depends on the local timezone of the process", "manifest-depends-on-process-timezone")
         if o.compute_hash() != o.id:
             ctx.fail(case, "compute_hash() differs from the id assigned at construction", "compute-hash-unstable")
         if kind in TAG:
